@@ -149,6 +149,29 @@ def damaged_omen_case(which='CP.level'):
     return viol, runs
 
 
+def hash_seed_prefix_case():
+    """`-n N` in one process against the unlimited run of another process (another interpreter hash seed): the first N lines - on a
+    ruleset whose Markov part has several initial n-grams on one level, one of them without any continuation"""
+    om = {'ngram': 3, 'alphabet': list('abcdefghijklxz'), 'ip': [[0, 'ab'], [0, 'cd'], [0, 'zz'], [0, 'ef'], [0, 'gh'], [0, 'ij'], [0, 'kl']],
+          'ep': [[0, 'ab']], 'cp': [[0, g + 'x'] for g in ('ab', 'cd', 'ef', 'gh', 'ij', 'kl')], 'ln': [10, 10, 0], 'keyspace': []}
+    spec = {'terminals': {'D2': [['12', '0.75'], ['34', '0.25']]}, 'grammar': [['D2', '0.5'], ['M', '0.5']], 'omen_prob': [['0', '0.5']], 'prince': [],
+            'mode': 'dyadic', 'encoding': 'utf-8', 'omen': om}
+    name = 'c09hash'
+    common.install_ruleset(spec, name)
+    full, _, _ = common.run_cli('pcfg_guesser.py', ['-r', name, '-s', 'c09hash'], stdin='devnull', env_extra={'PYTHONHASHSEED': '0'})
+    total = full.count(b'\n')
+    viol, runs = [], 1
+    for hs in ('1', '2', '3', '7'):
+        for n in (2, 4, 6):
+            o, e, rc = common.run_cli('pcfg_guesser.py', ['-r', name, '-s', 'c09hash', '-n', str(n)], stdin='devnull', env_extra={'PYTHONHASHSEED': hs})
+            runs += 1
+            if o != b''.join(l + b'\n' for l in full.split(b'\n')[:min(n, total)]):
+                viol.append({'property': 'C09', 'kind': 'limit-not-prefix', 'limit': n, 'hash_seed': hs, 'got': o.decode(errors='replace').split('\n')[:6],
+                             'unlimited': full.decode(errors='replace').split('\n')[:6], 'witness': {'hash_seed_prefix_case': True}})
+                return viol, runs
+    return viol, runs
+
+
 def mode_option_cases(ctx):
     viol, runs = [], 0
     for answer in ([b'y\n'] if ctx.quick else [b'y\n', b'n\n', b'']):
@@ -164,6 +187,9 @@ def mode_option_cases(ctx):
         runs += 1
     viol += mode_option_case(['-m', 'honeywords', '-n', '4'], name='modeheavy', spec=heavy_spec())
     runs += 1
+    v_, r_ = hash_seed_prefix_case()
+    viol += v_
+    runs += r_
     for which in (['CP.level'] if ctx.quick else ['CP.level', 'IP.level', 'EP.level']):
         v_, r_ = damaged_omen_case(which)
         viol += v_
@@ -264,6 +290,8 @@ def replay(ctx, payload):
         from props import C15 as _c15
         common.use_impl()
         return _c15.limited_resume_history('C09', (w.get('limit', 10 ** 6),))[0]
+    if w.get('hash_seed_prefix_case'):
+        return hash_seed_prefix_case()[0]
     if 'damaged_omen_file' in w:
         return damaged_omen_case(w['damaged_omen_file'])[0]
     if 'cli' in w:
